@@ -1,5 +1,5 @@
 (* C07 — transaction tokens map one-to-one onto open pre-authorisations.  Statements only. *)
-From Zvt Require Import Base Length Cp437 Encoding Codec Lookup Client ClientProps.
+From Zvt Require Import Base Length Cp437 Encoding Codec Lookup Client ClientProps ClientWire.
 Open Scope N_scope.
 
 (* the invariant of the token map — no token twice, never more than the configured maximum — holds
@@ -64,7 +64,27 @@ Proof. exact commit_closes_token. Qed.
 Theorem C07_other_tokens_untouched : forall k k' l, list_eqb k' k = false -> assoc_tok k' (remove_tok k l) = assoc_tok k' l.
 Proof. exact assoc_remove_other. Qed.
 
+(* on exactly its receipt number, down to the wire (for every state, world, time and amount): the request a commit / cancel
+   writes first on the connection in use is read back by the layout's decoder with the receipt number recorded for THIS token *)
+Theorem C07_commit_uses_the_tokens_receipt : forall cfg st tok amount rn w id pl,
+  assoc_tok tok (s_txs st) = Some rn -> w_cur w = Some id ->
+  rn < 10000 -> c_amount cfg < 10 ^ 12 -> c_currency cfg < 10000 -> token_ok tok pl ->
+  exists req : list N, req <> nil /\
+    first_new_event w (snd (commit_transaction cfg st tok amount w)) (EWrite id (w_now w) req) /\
+    forall r, dec_cmd FUEL (cmd_of "zvt::packets::PartialReversal") (req ++ r) =
+              Ok (partial_reversal_value rn (c_amount cfg - amount) (c_currency cfg) tok, r).
+Proof. exact commit_releases_exactly_the_unused_part. Qed.
+Theorem C07_cancel_uses_the_tokens_receipt : forall cfg st tok rn w id,
+  assoc_tok tok (s_txs st) = Some rn -> w_cur w = Some id -> rn < 10000 -> c_currency cfg < 10000 ->
+  exists req : list N, req <> nil /\
+    first_new_event w (snd (cancel_transaction cfg st tok w)) (EWrite id (w_now w) req) /\
+    forall r, dec_cmd FUEL (cmd_of "zvt::packets::PreAuthReversal") (req ++ r) =
+              Ok (preauth_reversal_value (c_currency cfg) rn, r).
+Proof. exact cancel_reverses_that_reservation. Qed.
+
 Print Assumptions C07_cancel_closes_token.
+Print Assumptions C07_commit_uses_the_tokens_receipt.
+Print Assumptions C07_cancel_uses_the_tokens_receipt.
 Print Assumptions C07_commit_closes_token.
 Print Assumptions C07_other_tokens_untouched.
 Print Assumptions C07_begin_records_last_receipt.
